@@ -165,7 +165,7 @@ func genParserHistory(t *rapid.T, x *parserExec, o histOpts) {
 				n = rapid.IntRange(1, 4).Draw(t, "wlenTiny")
 			}
 			before := len(x.fed)
-			x.step(POp{Op: "write", Data: src.next(n)})
+			x.step(POp{Op: "write", Data: src.next(n), Empty: n == 0 && rapid.Bool().Draw(t, "emptyNotNil")})
 			src.unread(n - (len(x.fed) - before))
 		case 1: // fill
 			room := cc.BufferSize - x.buffered()
